@@ -14,7 +14,8 @@ C19/scan/serve_returncode).  The contract, over an arbitrary graph seen through 
     is written;
   * before the loop the stale TARGET values are flagged, after it the directory targets are reconciled.
 
-`find_attached` and `_creator_chain_pending` are assumed (functions of the path / of the file); the callee
+`find_attached` is assumed (a function of the path); `_creator_chain_pending` is verified below against the recursive
+definition of "a PENDING step in the creator chain" and used by the caller as a function of the file; the callee
 `_raise_if_forbidden_target` is used through its verified contract (C11_need)."""
 
 from __future__ import annotations
@@ -99,11 +100,125 @@ def _chain_pending(self, node):
     return sym.SymBool(chain_pending(node.path)) if isinstance(node, _RtFile) else sym.SymBool(cur().fresh("rt.any", BOOL))
 
 
-contract("stepup/core/trellis.py::Trellis.find_attached", props=[], verify=False, impl=_find_attached,
-         note="assumed: the attached node of that class and label, or None (one SELECT on node; the label is unique "
-              "among attached nodes: schema index)")(type("_find_attached_assumed", (), dict(modifies=[])))
-contract("stepup/core/workflow.py::Workflow._creator_chain_pending", props=[], verify=False, impl=_chain_pending,
-         note="assumed: whether a PENDING step sits in the creator chain of the node (a walk over Node.creator())")(type("_chain_pending_assumed", (), dict(modifies=[])))
+class _Kind:
+    """A node class as find_attached uses it: kind() names the rows, calling it builds the node object."""
+
+    def __init__(self, name):
+        self.k = ty.Str.fresh(name + ".kind")
+
+    def kind(self):
+        return self.k
+
+    def __call__(self, graph, i, label):
+        cur().event("rt.node_built", graph=graph, i=i, label=label)
+        return sym.SymObj(common.Node, dict(graph=graph, i=i, label=label), name="Node", frozen=True,
+                          eq_fields=("graph", "i", "label"))
+
+
+FIND_ATTACHED = "SELECT i FROM node WHERE kind = ? AND label = ? AND NOT detached"
+
+
+def _fa_finish(c, outcome, args, old):
+    """One statement: the attached rows of that kind and label; None exactly when it has no row, otherwise the node of
+    the row found (its i, the label asked for).  That at most one such row exists is the schema's unique index."""
+    if outcome[0] != "return":
+        return
+    stmts = [e for e in c.trace if e.kind == "sql"]
+    ok_sql = len(stmts) == 1 and sqlfront.match_key(stmts[0].sql) == sqlfront.match_key(FIND_ATTACHED) \
+        and isinstance(stmts[0].args, tuple) and len(stmts[0].args) == 2
+    c.prove("selects_attached_rows_of_kind_and_label", tm.And(tm.mk_bool(ok_sql), *(
+        [tm.Eq(S(stmts[0].args[0]), S(args["node_type"].k)), tm.Eq(S(stmts[0].args[1]), S(args["label"]))] if ok_sql else [])),
+        kind="sql", detail=str([e.sql for e in stmts]))
+    fetch = [e for e in c.trace if e.kind == "sql.fetchone"]
+    built = [e for e in c.trace if e.kind == "rt.node_built"]
+    res = outcome[1]
+    none = res is None
+    c.prove("none_exactly_without_row", tm.mk_bool(len(fetch) == 1) if not fetch else
+            tm.And(tm.mk_bool(len(fetch) == 1), tm.Iff(tm.mk_bool(none), fetch[0].isnone)), kind="post")
+    if not none:
+        c.prove("node_of_the_row_found", tm.mk_bool(len(built) == 1 and built[0].graph is args["self"]) if len(built) != 1 else
+                tm.And(tm.mk_bool(built[0].graph is args["self"]), tm.Eq(S(built[0].label), S(args["label"]))), kind="post")
+
+
+@contract("stepup/core/trellis.py::Trellis.find_attached", props=["C19", "C11", "C09"], impl=_find_attached)
+class find_attached:
+    """Callers use it as a function of the label (attached or None)."""
+
+    args = dict(self=lambda a: workflow_spec([(FIND_ATTACHED, ty.TupleOf(ty.Int))]).fresh("workflow"),
+                node_type=ty.Make(_Kind), label=ty.Str)
+    finish = _fa_finish
+    modifies = []
+# ---- Workflow._creator_chain_pending, verified against the recursive reading of "a PENDING step in the creator chain"
+#
+# The graph is seen through functions of the node id: cr(n) the creator, kind(n) in {none, root, step, other}, st(n) the
+# step state.  CP(n) is the specification, defined by recursion along cr (well-defined for the finite creator chains
+# the schema guarantees: creator references an older row or the root):
+#     CP(n)  <=>  kind(cr n) not in {none, root}  and  ((kind(cr n) = step and st(cr n) = PENDING)  or  CP(cr n))
+# The definition is unfolded where the code follows an edge (creator()).  Loop invariant: CP(entry node) <=> CP(node).
+# Termination of the walk is not proved.
+
+K_NONE, K_ROOT, K_STEP, K_OTHER = range(4)
+StepState = common.enums.StepState
+
+
+def _g(name, n, sort):
+    return cur().decls.fun("chain." + name, [INT], sort)(I(n))
+
+
+def CP(n) -> tm.T:
+    return _g("CP", n, BOOL)
+
+
+def _unfold(n):
+    c = cur()
+    m = _g("cr", n, INT)
+    k = _g("kind", m, INT)
+    c.pc.append(tm.And(tm.Le(tm.mk_int(0), k), tm.Le(k, tm.mk_int(3))))
+    c.pc.append(tm.Iff(CP(n), tm.And(tm.Not(tm.Eq(k, tm.mk_int(K_NONE))), tm.Not(tm.Eq(k, tm.mk_int(K_ROOT))), tm.Or(
+        tm.And(tm.Eq(k, tm.mk_int(K_STEP)), tm.Eq(_g("st", m, INT), tm.mk_int(StepState.PENDING.value))), CP(m)))))
+    return m, k
+
+
+class _ChainNode:
+    def __init__(self, name):
+        self.id = ty.Int.fresh(name + ".id") if isinstance(name, str) else name
+
+    def creator(self):
+        c = cur()
+        m, k = _unfold(self.id)
+        for kind, cls in ((K_NONE, None), (K_ROOT, _ChainRoot), (K_STEP, _ChainStep)):
+            if c.fork(tm.Eq(k, tm.mk_int(kind))):
+                return None if cls is None else cls(sym.SymInt(m))
+        return _ChainNode(sym.SymInt(m))
+
+
+class _ChainRoot(_ChainNode):
+    pass
+
+
+class _ChainStep(_ChainNode):
+    def get_state(self):
+        c = cur()
+        st = ty.EnumOf(StepState).fresh(c.fresh_name("chain.state"))
+        c.pc.append(tm.Eq(I(st), _g("st", self.id, INT)))
+        return st
+
+
+def _cp_inv(e):
+    return wrap_bool(tm.Iff(CP(e.entry.node.id), CP(e.node.id)))
+
+
+@contract("stepup/core/workflow.py::Workflow._creator_chain_pending", props=["C19", "C11"], impl=_chain_pending)
+class creator_chain_pending:
+    """True exactly when a PENDING step sits in the creator chain of the node (CP above).  Callers use it as a
+    function of the node."""
+
+    args = dict(self=lambda a: workflow_spec([]).fresh("workflow"), node=ty.Make(_ChainNode))
+    env = dict(Root=_ChainRoot, Step=_ChainStep)
+    ensures = lambda node, result, old: wrap_bool(tm.Iff(B(result), CP(old.node.id)))
+    result = ty.Bool
+    modifies = []
+    loops = {0: LoopSpec(invariant=_cp_inv, locals=dict(node=ty.Make(_ChainNode)))}
 
 
 def _member(targets, p) -> tm.T:
